@@ -424,6 +424,22 @@ func genStepPublic(rt *rapid.T, live bool, fam int) dnsStep { // fam: 0 both, 4,
 	return st
 }
 
+// genStepUnreachable: documentation addresses only, so every vetted address
+// fails to connect (what a dialer does after that is then observable).
+func genStepUnreachable(rt *rapid.T) dnsStep {
+	var st dnsStep
+	fam := rapid.SampledFrom([]int{4, 4, 4, 4, 0, 6}).Draw(rt, "ufam")
+	if fam != 6 {
+		for i, n := 0, rapid.IntRange(1, 2).Draw(rt, "n4"); i < n; i++ {
+			st.A = append(st.A, fmt.Sprintf("203.0.113.%d", rapid.IntRange(1, 254).Draw(rt, "doc4")))
+		}
+	}
+	if fam != 4 {
+		st.AAAA = append(st.AAAA, fmt.Sprintf("2001:db8::%x", rapid.IntRange(1, 0xffff).Draw(rt, "doc6")))
+	}
+	return st
+}
+
 func genStepInternal(rt *rapid.T, reachOnly bool) dnsStep {
 	var st dnsStep
 	k := rapid.IntRange(0, 5).Draw(rt, "ik")
@@ -475,6 +491,7 @@ func genC38DNS(rt *rapid.T) c38DNSCase {
 	c.Shape = rapid.SampledFrom([]string{
 		"dual-then-internal", "dual-then-internal", "dual-then-internal", "dual-then-internal", "dual-then-internal", "dual-then-internal",
 		"single-rebind", "single-rebind", "single-rebind", "single-rebind",
+		"unreachable-then-internal", "unreachable-then-internal", "unreachable-then-internal",
 		"all-internal", "all-internal", "mixed-first", "mixed-first", "stable-public", "stable-public",
 		"free", "free", "free", "literal"}).Draw(rt, "shape")
 	repeat := func(st dnsStep) []dnsStep { // the public answer is served once or twice before it changes
@@ -488,6 +505,8 @@ func genC38DNS(rt *rapid.T) c38DNSCase {
 		c.Steps = append(repeat(genStepPublic(rt, live, 0)), genStepInternal(rt, true))
 	case "single-rebind":
 		c.Steps = append(repeat(genStepPublic(rt, live, rapid.SampledFrom([]int{4, 4, 4, 4, 4, 4, 4, 6}).Draw(rt, "fam"))), genStepInternal(rt, true))
+	case "unreachable-then-internal":
+		c.Steps = append(repeat(genStepUnreachable(rt)), genStepInternal(rt, true))
 	case "all-internal":
 		for i, n := 0, rapid.IntRange(1, 3).Draw(rt, "ns"); i < n; i++ {
 			c.Steps = append(c.Steps, genStepInternal(rt, i > 0))
@@ -808,7 +827,7 @@ func runC38DNS(s *kit.Session, f kit.Failer, c c38DNSCase) {
 
 func TestC38Rebind(t *testing.T) {
 	s := kit.Begin(t, "C38", "rebind",
-		"host NAMES resolved by an in-process DNS responder installed as net.DefaultResolver (pure-Go resolver over an in-memory pipe; zone generated per case): a name has an answer schedule (the k-th lookup gets the k-th A/AAAA sets) drawn from shapes dual-stack-public-then-internal, single-family-rebind, all-internal, mixed-internal-first-answer, stable-public, free mixtures, IP literal; public = a non-internal address of this machine or documentation addresses, internal = addresses that arrive at the harness listener (127/8, 0.0.0.0, ::1, ::, IPv4-mapped loopback in AAAA, own private addresses) plus unreachable RFC1918/link-local/ULA decoys; name spelled lower/upper/mixed/rooted; run through guardLLMURL, CheckRedirect, guardedDialContext, the guarded client, guard-then-client and a 30x redirect to the name, with the URL port = the listener's port. Oracle (guard on): no connection is accepted by the listener on an internal local address, no returned conn has an internal RemoteAddr, no successful response is served from an internal address or when every resolution held an internal address; guard decisions: served answer holds an internal address => error, all served addresses certainly public => nil. Failed/timed-out dials to public addresses are counted, never judged. Non-trivial: a name with at least one lookup served whose schedule changes between queries and holds an internal address")
+		"host NAMES resolved by an in-process DNS responder installed as net.DefaultResolver (pure-Go resolver over an in-memory pipe; zone generated per case): a name has an answer schedule (the k-th lookup gets the k-th A/AAAA sets) drawn from shapes dual-stack-public-then-internal, single-family-rebind, unreachable-public-then-internal, all-internal, mixed-internal-first-answer, stable-public, free mixtures, IP literal; public = a non-internal address of this machine or documentation addresses, internal = addresses that arrive at the harness listener (127/8, 0.0.0.0, ::1, ::, IPv4-mapped loopback in AAAA, own private addresses) plus unreachable RFC1918/link-local/ULA decoys; name spelled lower/upper/mixed/rooted; run through guardLLMURL, CheckRedirect, guardedDialContext, the guarded client, guard-then-client and a 30x redirect to the name, with the URL port = the listener's port. Oracle (guard on): no connection is accepted by the listener on an internal local address, no returned conn has an internal RemoteAddr, no successful response is served from an internal address or when every resolution held an internal address; guard decisions: served answer holds an internal address => error, all served addresses certainly public => nil. Failed/timed-out dials to public addresses are counted, never judged. Non-trivial: a name with at least one lookup served whose schedule changes between queries and holds an internal address")
 	defer s.End()
 	s.Assume("the Go resolver (PreferGo) with a custom Dial is the resolver the code under test uses via net.DefaultResolver; answers are served from memory, so no verdict depends on time: deadlines (60/100 ms) only bound dials to unroutable documentation addresses")
 	s.Assume("net.DefaultResolver is swapped per case and restored; cases run sequentially in one process")
